@@ -194,7 +194,7 @@ def un_json(e):
     if isinstance(e, list):
         return [un_json(x) for x in e]
     if isinstance(e, str):
-        return float(e)
+        return float(e) if e in ('nan', 'inf', '-inf') else e
     return e
 
 
